@@ -7,8 +7,9 @@ Inductive op := OPause (c : nat) | OResume (c : nat) | OStop (w : nat) | OStopAl
 
 (* observation at quiescence: per controller "no call in progress", pause.IsPaused(), per worker
    0 = in the main select, 1 = in the acknowledging send, 2 = returned, 3 = anywhere else;
-   number of subscribers; panic (or the quiescence safety deadline expired) *)
-Record obs := Ob { o_idle : list bool; o_paused : bool; o_ws : list nat; o_subs : nat; o_bad : bool }.
+   number of subscribers; number of removed subscriptions whose PauseCh is closed; panic (or the
+   quiescence safety deadline expired) *)
+Record obs := Ob { o_idle : list bool; o_paused : bool; o_ws : list nat; o_subs : nat; o_pcl : nat; o_bad : bool }.
 
 (* rounds: the ops issued together, and the observation once nothing moves *)
 Record pcase := PC { p_nw : nat; p_nc : nat; p_rounds : list (list op * obs) }.
@@ -35,6 +36,7 @@ Definition project (s : state) : obs :=
      (paused s)
      (map (fun w => wcode (wk s w)) (seq 0 (nw s)))
      (length (filter (fun w => w_sub (wk s w)) (seq 0 (nw s))))
+     (length (filter (fun w => negb (w_sub (wk s w)) && w_pclosed (wk s w)) (seq 0 (nw s))))
      (panic s).
 
 Fixpoint bools_eqb (a c : list bool) : bool :=
@@ -51,7 +53,8 @@ Fixpoint nats_eqb (a c : list nat) : bool :=
   end.
 Definition obs_eqb (a c : obs) : bool :=
   bools_eqb (o_idle a) (o_idle c) && Bool.eqb (o_paused a) (o_paused c) &&
-  nats_eqb (o_ws a) (o_ws c) && Nat.eqb (o_subs a) (o_subs c) && Bool.eqb (o_bad a) (o_bad c).
+  nats_eqb (o_ws a) (o_ws c) && Nat.eqb (o_subs a) (o_subs c) && Nat.eqb (o_pcl a) (o_pcl c) &&
+  Bool.eqb (o_bad a) (o_bad c).
 
 (* true = the implementation's observations differ from the model's at some round *)
 Fixpoint diff_rounds (v : variant) (s : state) (rs : list (list op * obs)) : bool :=
@@ -127,5 +130,9 @@ Definition mon_call_effect : pcase -> bool :=
     let np := existsb is_pause ops in let nr := existsb is_resume ops in
     if np && negb nr then o_paused o else if nr && negb np then negb (o_paused o) else true).
 
+(* 5 no channel that a Pause may still be about to send on is ever closed (no_panic's reason) *)
+Definition mon_pausech_open : pcase -> bool := over_rounds (fun _ _ _ (o : obs) => Nat.eqb (o_pcl o) 0).
+
 Definition mons (l : list pcase) :=
-  mon_idx [mon_calls_return; mon_no_panic; mon_stopped_gone; mon_follow_flag; mon_call_effect] l.
+  mon_idx [mon_calls_return; mon_no_panic; mon_stopped_gone; mon_follow_flag; mon_call_effect;
+           mon_pausech_open] l.
